@@ -495,7 +495,7 @@ func checkC02(c *Ctx, w *World) {
 	// is stated over the recorded state of each connection — the record must follow the connection's reports, also after a
 	// refresh (C04.pair; the replacement registry is cleared at the swap, C04.refresh-complete ← C07.swap), or a channel
 	// that left READY stays in every later snapshot
-	importPremises(c, w, "C04", checkC04, []string{"C04.pair", "C04.refresh-complete"}, "C02.states")
+	importPremises(c, w, "C04", checkC04, []string{"C04.pair", "C04.refresh-complete", "C04.writers"}, "C02.states")
 
 }
 
